@@ -3,7 +3,7 @@
 # usage: tools/confirm_seeds_parallel.sh [jobs] ; output: one line per seed, "NOT DETECTED" lines at the end
 cd /verif
 jobs=${1:-4}
-ls -d seeded/*/ | xargs -P "$jobs" -I{} sh -c '
+ls -d seeded/*${SEL:-}*/ | xargs -P "$jobs" -I{} sh -c '
   d={}; n=$(basename $d)
   ids=$(/venv/bin/python -c "import json,sys; print(\" \".join(json.load(open(sys.argv[1]))[\"detected_by\"]))" $d/meta.json)
   out=$(tools/eval_patch.sh /verif/$d/patch.diff $ids 2>&1 | grep -E "^== " | tr "\n" " ")
